@@ -13,7 +13,8 @@
 (* consecutiveFailures counter, threshold normalisation, silent stop on       *)
 (* method-not-found, exit on context cancellation (session Close).  The       *)
 (* environment fixes the peer's outcome script, the configured threshold and  *)
-(* the instant at which the owner closes the session.  Time is explicit       *)
+(* the instant at which the owner closes the session and for how long that   *)
+(* Close has to wait for a running request handler.  Time is explicit         *)
 (* (`now` jumps to the next event).                                           *)
 EXTENDS Integers, Sequences, FiniteSets, TLC
 
@@ -71,15 +72,28 @@ Timing(o) ==
 
 \* keep-alive ends silently on "method not found" (no further ping, session stays
 \* open) and when the owner closes the session (no ping afterwards)
+\* o.attempts: the instants at which the session tried to send a ping (whether or not it
+\* reached the peer: a ping attempted on a closing connection is refused locally).
 SilentStop(o) ==
-  /\ \A j \in 1..Len(o.pings) : o.pings[j].o = "m" => (Len(o.pings) = j /\ o.closed < 0)
-  /\ o.userClose >= 0 => \A j \in 1..Len(o.pings) : o.pings[j].at <= o.userClose
+  /\ \A j \in 1..Len(o.pings) : o.pings[j].o = "m" =>
+        /\ Len(o.pings) = j /\ o.closed < 0
+        /\ \A i \in 1..Len(o.attempts) : o.attempts[i] <= o.pings[j].at
+  /\ o.userClose >= 0 => /\ \A j \in 1..Len(o.pings) : o.pings[j].at <= o.userClose
+                         /\ \A i \in 1..Len(o.attempts) : o.attempts[i] <= o.userClose
+
+\* no ping can be outstanding when the owner starts closing
+Quiet(o) == \A j \in 1..Len(o.pings) :
+               o.pings[j].at + PingTimeout(o.I) <= o.userClose \/ o.pings[j].at > o.userClose
 
 \* nothing is left behind: once the session has been closed (by keep-alive or by its
 \* owner) and everything runnable has run, the keep-alive loop is gone (o.kaAlive is the
 \* number of keep-alive loops alive at that point); after a long quiet period no goroutine
 \* remains and no ping was sent after the termination
+\* o.kaEarly: keep-alive loops alive right after the owner's Close has BEGUN (everything
+\* runnable has run, Close itself may still be waiting for a request handler to return): with
+\* no ping outstanding keep-alive must end there and then, not when the drain is over.
 NoLeftovers(o) ==
+  /\ (o.userClose >= 0 /\ Quiet(o)) => o.kaEarly = 0
   /\ o.kaAlive = 0
   /\ o.left = 0
   /\ o.exit = "clean"
@@ -93,14 +107,18 @@ Holds(o) == Accuracy(o) /\ Completeness(o) /\ Timing(o) /\ SilentStop(o) /\ NoLe
 CONSTANTS Interval,      \* ticker period in clock units, a multiple of 4
           MaxLen,        \* longest outcome script
           Thresholds,    \* configured KeepAliveFailureThreshold values
-          AnswerDelays   \* how long an answering peer may take, all < PingTimeout(Interval)
+          AnswerDelays,  \* how long an answering peer may take, all < PingTimeout(Interval)
+          DrainLens      \* for how many intervals the owner's Close may wait for a running handler
 
 ASSUME Interval % 4 = 0 /\ \A d \in AnswerDelays : d >= 0 /\ d < PingTimeout(Interval)
 
 VARIABLES
   script,     \* Seq(Outcomes): what the peer does with ping 1, 2, ...
   thr0,       \* the configured threshold (before normalisation)
-  endMode,    \* "idle": the owner closes between two pings; "inflight": while a ping is outstanding
+  endMode,    \* "idle": the owner closes between two pings; "inflight": while a ping is outstanding;
+              \* "drain": between two pings while a request handler runs for `drain` more intervals
+  drain,      \* intervals the owner's Close waits for the handler (0 unless endMode = "drain")
+  drainedAt,  \* when the handler returned and the owner's Close completed (-1: not yet)
   now,        \* clock
   pc,         \* "select" | "ping" | "closed" | "stopped" | "done"
   tickerOn,   \* the ticker has not been stopped
@@ -114,13 +132,13 @@ VARIABLES
   closedAt,   \* when keep-alive closed the session (-1: it did not)
   userAt      \* when the owner closed the session (-1: not yet)
 
-vars == <<script, thr0, endMode, now, pc, tickerOn, nextTick, ctxDone, cf, k, pend, resolveAt, hist, closedAt, userAt>>
+vars == <<script, thr0, endMode, drain, drainedAt, now, pc, tickerOn, nextTick, ctxDone, cf, k, pend, resolveAt, hist, closedAt, userAt>>
 
 Scripts == UNION {[1..n -> Outcomes] : n \in 0..MaxLen}
 
 \* The owner closes the session after the script is used up: three quarters of an
 \* interval after the last scripted ping, or a quarter of an interval into the next one.
-UserTime == IF endMode = "idle" THEN Len(script) * Interval + (3 * Interval) \div 4
+UserTime == IF endMode \in {"idle", "drain"} THEN Len(script) * Interval + (3 * Interval) \div 4
             ELSE (Len(script) + 1) * Interval + Interval \div 4
 UserPending == userAt < 0 /\ closedAt < 0
 
@@ -128,7 +146,8 @@ OutcomeAt(i) == IF i <= Len(script) THEN script[i] ELSE "u"
 Delays(oc) == IF oc = "a" THEN AnswerDelays ELSE {0}
 
 Init ==
-  /\ script \in Scripts /\ thr0 \in Thresholds /\ endMode \in {"idle", "inflight"}
+  /\ script \in Scripts /\ thr0 \in Thresholds /\ endMode \in {"idle", "inflight", "drain"}
+  /\ drain \in (IF endMode = "drain" THEN DrainLens ELSE {0}) /\ drainedAt = -1
   /\ now = 0 /\ pc = "select" /\ tickerOn = TRUE /\ nextTick = Interval /\ ctxDone = FALSE
   /\ cf = 0 /\ k = 0 /\ pend = [o |-> "a", d |-> 0] /\ resolveAt = 0 /\ hist = <<>>
   /\ closedAt = -1 /\ userAt = -1
@@ -144,7 +163,7 @@ Tick ==
        /\ resolveAt' = (IF OutcomeAt(k + 1) \in {"t", "u"} THEN nextTick + PingTimeout(Interval) ELSE nextTick + d)
   /\ hist' = Append(hist, [at |-> nextTick, o |-> OutcomeAt(k + 1)])
   /\ pc' = "ping"
-  /\ UNCHANGED <<script, thr0, endMode, tickerOn, ctxDone, cf, closedAt, userAt>>
+  /\ UNCHANGED <<script, thr0, endMode, drain, drainedAt, tickerOn, ctxDone, cf, closedAt, userAt>>
 
 \* session.Ping returns
 Resolve ==
@@ -164,7 +183,7 @@ Resolve ==
            ELSE \* session.Close(): idempotent; cancels the keep-alive context
               /\ pc' = "closed" /\ tickerOn' = FALSE /\ ctxDone' = TRUE
               /\ closedAt' = (IF userAt < 0 THEN resolveAt ELSE closedAt)
-  /\ UNCHANGED <<script, thr0, endMode, nextTick, k, pend, resolveAt, hist, userAt>>
+  /\ UNCHANGED <<script, thr0, endMode, drain, drainedAt, nextTick, k, pend, resolveAt, hist, userAt>>
 
 \* the owner calls Close on the session: the keep-alive context is cancelled
 UserClose ==
@@ -172,26 +191,39 @@ UserClose ==
   /\ (pc = "select" /\ tickerOn) => UserTime < nextTick
   /\ pc = "ping" => UserTime < resolveAt
   /\ now' = UserTime /\ userAt' = UserTime /\ ctxDone' = TRUE
-  /\ UNCHANGED <<script, thr0, endMode, pc, tickerOn, nextTick, cf, k, pend, resolveAt, hist, closedAt>>
+  /\ UNCHANGED <<script, thr0, endMode, drain, drainedAt, pc, tickerOn, nextTick, cf, k, pend, resolveAt, hist, closedAt>>
+
+\* the handler the owner's Close was waiting for returns: Close completes.  Time does not
+\* pass while the loop can leave (Exit is instantaneous), and earlier events come first.
+DrainTime == userAt + drain * Interval
+DrainEnd ==
+  /\ endMode = "drain" /\ userAt >= 0 /\ drainedAt < 0
+  /\ ~(pc = "select" /\ ctxDone)
+  /\ (pc = "select" /\ tickerOn) => DrainTime < nextTick
+  /\ pc = "ping" => DrainTime < resolveAt
+  /\ now' = DrainTime /\ drainedAt' = DrainTime
+  /\ UNCHANGED <<script, thr0, endMode, drain, pc, tickerOn, nextTick, ctxDone, cf, k, pend, resolveAt, hist, closedAt, userAt>>
 
 \* case <-ctx.Done(): return (deferred ticker.Stop)
 Exit ==
   /\ pc = "select" /\ ctxDone
   /\ pc' = "done" /\ tickerOn' = FALSE
-  /\ UNCHANGED <<script, thr0, endMode, now, nextTick, ctxDone, cf, k, pend, resolveAt, hist, closedAt, userAt>>
+  /\ UNCHANGED <<script, thr0, endMode, drain, drainedAt, now, nextTick, ctxDone, cf, k, pend, resolveAt, hist, closedAt, userAt>>
 
-Next == Tick \/ Resolve \/ UserClose \/ Exit
+Next == Tick \/ Resolve \/ UserClose \/ DrainEnd \/ Exit
 Spec == Init /\ [][Next]_vars /\ WF_vars(Next)
 
 -----------------------------------------------------------------------------
 (* Design check: the loop satisfies the property                              *)
 
 LoopGone == pc \in {"closed", "stopped", "done"}
-Terminal == LoopGone /\ (userAt >= 0 \/ closedAt >= 0)
+Terminal == LoopGone /\ (closedAt >= 0 \/ (userAt >= 0 /\ (endMode = "drain" => drainedAt >= 0)))
 
 \* the observation a peer and the owner would make of the current state
 ObsOf == [T |-> thr0, I |-> Interval, start |-> 0, pings |-> hist,
+          attempts |-> [i \in 1..Len(hist) |-> hist[i].at],
           closed |-> closedAt, userClose |-> userAt,
+          kaEarly |-> (IF userAt >= 0 /\ now > userAt /\ ~LoopGone THEN 1 ELSE 0),
           kaAlive |-> (IF LoopGone THEN 0 ELSE 1),
           left |-> (IF LoopGone /\ ~tickerOn THEN 0 ELSE 1), exit |-> "clean"]
 
@@ -209,6 +241,8 @@ InvSilentStop == SilentStop(ObsOf)
 InvCounter == (pc = "select" /\ userAt < 0) => (cf = TrailingFails(hist) /\ cf < Norm(thr0))
 InvCompleteness == pc # "ping" => Completeness(ObsOf)
 InvFinal == Terminal => Holds(ObsOf)
+\* the owner's Close ends keep-alive at once, however long Close itself then takes
+InvGoneWhenClosing == NoLeftovers([ObsOf EXCEPT !.kaAlive = 0, !.left = 0])
 \* closing the session is the loop's last act; after the owner's Close the loop takes no
 \* further tick (it may still be inside the ping that was outstanding)
 InvGoneAtClose == closedAt >= 0 => LoopGone
